@@ -255,6 +255,9 @@ type undoRec struct {
 
 // write stores v at addr, journaling the old content when a path is active.
 func (m *Machine) write(addr *value, v value) {
+	if m.raceActive {
+		m.raceWrite(addr)
+	}
 	if m.journaling {
 		m.journal = append(m.journal, undoRec{addr: addr, old: *addr})
 	}
@@ -310,6 +313,9 @@ func (m *Machine) store(addr *value, v value) {
 func (m *Machine) load(addr *value) value {
 	if addr == nil {
 		m.rtPanic("invalid memory address or nil pointer dereference")
+	}
+	if m.raceActive {
+		m.raceRead(addr)
 	}
 	return copyVal(*addr)
 }
